@@ -195,7 +195,10 @@ CLAIMED = {
              'finding F5, c04_single_first_event_never_delivered). Multi producer, any number of writer threads, every schedule: '
              'c04_multi_log_is_prefix (in order, gap-free, no repetition, nothing above the cursor), '
              'c04_multi_handle_only_published / c04_multi_log_written (ring size 2^k: whatever a handler is handed has been '
-             'completely written and published by its claimant); the full delivery statement is false (known findings F8 and '
+             'completely written and published by its claimant), c04_multi_payload_intact (slot layer Model/RingMultiPay: what a '
+             'handler is handed for a sequence is the one value its claimant wrote for it — the next item of that writer — '
+             'transformed by the mutable handlers of the earlier stages; writers interleaving, out-of-order publication and ring '
+             'wrap-around included); the full delivery statement is false (known findings F8 and '
              'F13-C04, kernel-checked witness c04_multi_stranded_event_lost, replayed on the real code). Tie: every '
              'real trace (facade operation, handler call with payload, slot access) is replayed step by step on the Lean model '
              '(MISMATCH) and judged by the delivery/payload oracle on the implementation events (SPECFAIL).',
@@ -210,10 +213,11 @@ CLAIMED = {
         text='Every configuration and schedule, single producer (c13_stage_order) and multi producer (c13_multi_stage_order): a '
              'stage-(k+1) handler about to handle i finds i in the log of every stage-k handler, whose published cursor is >= i; '
              'c13_chain; c13_no_stage_lapped (gating on the last stage only bounds every stage: i < w < i + n); '
-             'c13_sees_earlier_modifications (slot layer: a stage-(k+1) handler is handed what stage k was handed with the mutable '
-             'handler of stage k applied). That the accesses are also ordered by happens-before is R2 of C05. The implementation '
+             'c13_sees_earlier_modifications / c13_multi_sees_earlier_modifications / c13_multi_sees_previous_stage (slot layers, '
+             'single and multi producer: a stage-(k+1) handler is handed what stage k was handed with the mutable handler of stage k '
+             'applied). That the accesses are also ordered by happens-before is R2 of C05. The implementation '
              'events are judged by the stage-order and payload oracles.',
-        note='as C04; no_stage_lapped and the slot layer are proved for the single producer only',
+        note='as C04; for the multi producer the no-lap statement is c05_multi_no_lap (C05)',
         ref='DESIGN.md §7 C13'),
     'C14': dict(
         technique='Lean 4 proof: producer invariants (claims tile, cursor = published prefix) for every schedule + trace replay',
